@@ -145,7 +145,18 @@ pub fn judge(case: &Case, ctx: &mut Ctx) -> Verdict {
         };
     }
     // a panic of hygiene/fixer/codegen on the visitor's output is C07's business ("output is a
-    // program"); here it only takes part in the determinism comparison
+    // program") - unless a diagnostic was reported, which exempts the case there: then the rest
+    // of the pipeline crashing on what the visitor handed back turns the report into a crash
+    if !outs[0].diags.is_empty() && outs[0].print_error.is_some() {
+        let input_prints = crate::driver::with_transform(&case.source, lang, opts, |t| t.print_final(&t.input).is_ok())
+            .unwrap_or(false);
+        if input_prints {
+            return Verdict::Violation {
+                kind: "pipeline-crash-after-diagnostic".into(),
+                detail: json!({"diagnostics": outs[0].diags, "print_error": outs[0].print_error}),
+            };
+        }
+    }
     let a = summarize(&case.source, lang, opts);
     let b = summarize(&case.source, lang, opts);
     for (name, o) in [("worker2", &outs[1]), ("inproc1", &a), ("inproc2", &b)] {
@@ -164,7 +175,7 @@ impl Property for C08 {
         "C08"
     }
     fn rule(&self) -> String {
-        "gen::grammar modules with adversarial knobs (directive values of every JSXAttrValue kind, cyclic interfaces/aliases, indexed access/Pick/Omit of them, holes/spreads/empty arrays in directive positions, nesting up to 150) x random options (resolveType mostly on for TSX); each case is transformed in two separate exec'ed worker processes (8 MiB stack) and twice in-process: no panic, no worker death, no hang (20 s CPU), all four (raw print, final print, diagnostics) byte-identical. non-trivial = contains >=1 unusual or adversarial construct; distinct by hash(source, options)".into()
+        "gen::grammar modules with adversarial knobs (directive values of every JSXAttrValue kind, cyclic interfaces/aliases, indexed access/Pick/Omit of them, holes/spreads/empty arrays in directive positions, nesting up to 150) x random options (resolveType mostly on for TSX); each case is transformed in two separate exec'ed worker processes (8 MiB stack) and twice in-process: no panic, no worker death, no hang (20 s CPU), no crash of hygiene / fixer / codegen on the visitor's output after a diagnostic (when the input itself prints), all four (raw print, final print, diagnostics) byte-identical. non-trivial = contains >=1 unusual or adversarial construct; distinct by hash(source, options)".into()
     }
     fn assumptions(&self) -> Vec<String> {
         vec![
